@@ -172,6 +172,8 @@ def build_inputs(tier):
                 cases.append(("backslash-only-line", "\n".join(lines[:i] + ["\\"] + [ind + "  " + lines[i].lstrip()] + lines[i + 1 :])))
                 cases.append(("backslash-only-line", "\n".join(lines[:i] + [ind + "\\"] + [ind + "    " + lines[i].lstrip()] + lines[i + 1 :])))
                 break
+    for s in mutate.indent_histories(r, 400 if tier == "quick" else 20000):
+        cases.append(("indent-history", s))
     for rc in corpus.regress("C02"):
         cases.insert(0, ("regress", rc["src"]))
     out = []
